@@ -138,32 +138,15 @@ func (node *PFCPNode) Serve() {
 			}
 
 			// Clear out the remaining pconn completions
-		clearLoop:
-			for {
-				select {
-				case rAddr, ok := <-node.pConnDone:
-					{
-						if !ok {
-							// channel is closed, break
-							break clearLoop
-						}
-						node.pConns.Delete(rAddr)
-						logger.PfcpLog.Infoln("removed connection to", rAddr)
-					}
-				default:
-					// nothing to read from channel
-					break clearLoop
-				}
+			// Every association shuts down on the cancelled context and reports on pConnDone
+			// exactly once: wait for all of them before the datapath goes away. The channel is
+			// not closed, so a report can never hit a closed channel.
+			for node.hasConns() {
+				rAddr := <-node.pConnDone
+				node.pConns.Delete(rAddr)
+				logger.PfcpLog.Infoln("removed connection to", rAddr)
 			}
 
-			if len(node.pConnDone) > 0 {
-				for rAddr := range node.pConnDone {
-					node.pConns.Delete(rAddr)
-					logger.PfcpLog.Infoln("removed connection to", rAddr)
-				}
-			}
-
-			close(node.pConnDone)
 			logger.PfcpLog.Infoln("done waiting for PFCPConn completions")
 
 			node.upf.Exit()
@@ -171,6 +154,18 @@ func (node *PFCPNode) Serve() {
 	}
 
 	close(node.done)
+}
+
+// hasConns reports whether an association is still registered.
+func (node *PFCPNode) hasConns() bool {
+	found := false
+
+	node.pConns.Range(func(_, _ interface{}) bool {
+		found = true
+		return false
+	})
+
+	return found
 }
 
 func (node *PFCPNode) Stop() {
